@@ -92,4 +92,28 @@ theorem neg_n_val (u : List Nat) (hu : Limbs u) :
 example : neg_n [0, 5, 7] = ([0, B - 5, B - 8], 1) := by decide
 example : neg_n [0, 0] = ([0, 0], 0) := by decide
 
+/-- mpn_lshift (1 ≤ cnt ≤ 63; C domain n ≥ 1, the identity also holds for the empty vector):
+    result + B^n·ret = u·2^cnt, the returned limb holds exactly the cnt bits shifted out. -/
+theorem lshift_val (u : List Nat) (c : Nat) (hu : Limbs u) (hc1 : 1 ≤ c) (hc : c ≤ 63) :
+    val (lshift u c).1 + B ^ u.length * (lshift u c).2 = val u * 2 ^ c ∧
+    (lshift u c).2 < 2 ^ c ∧ Limbs (lshift u c).1 ∧ (lshift u c).1.length = u.length := by
+  have := lshiftGo_val c (by omega) u 0 hu (by positivity)
+  simpa [lshift] using this
+
+example : lshift [B - 1, 1] 4 = ([B - 16, 31], 0) := by decide
+example : lshift [3, 2 ^ 63 + 5] 1 = ([6, 10], 1) := by decide
+
+/-- mpn_rshift (1 ≤ cnt ≤ 63, n ≥ 1): result·B + ret = u·2^(64−cnt): the result is u shifted right and
+    the returned limb holds the cnt bits shifted out, left-aligned.  Equivalently (second part)
+    result = ⌊u / 2^cnt⌋ and ret = (u mod 2^cnt)·2^(64−cnt). -/
+theorem rshift_val (u : List Nat) (c : Nat) (hu : Limbs u) (hn : 1 ≤ u.length) (hc1 : 1 ≤ c) (hc : c ≤ 63) :
+    val (rshift u c).1 * B + (rshift u c).2 = val u * 2 ^ (64 - c) ∧
+    (rshift u c).2 < B ∧ Limbs (rshift u c).1 ∧ (rshift u c).1.length = u.length ∧
+    val (rshift u c).1 = val u / 2 ^ c ∧ (rshift u c).2 = (val u % 2 ^ c) * 2 ^ (64 - c) := by
+  match u, hn with
+  | x :: xs, _ => exact rshift_val' x xs c hu hc1 hc
+
+example : rshift [5, 3] 1 = ([2 ^ 63 + 2, 1], 2 ^ 63) := by decide
+example : rshift [B - 1, B - 1] 60 = ([B - 1, 15], B - 16) := by decide
+
 end Mpir
